@@ -11,6 +11,15 @@ from typing import List, Tuple, Union
 from .line_writer import LineWriter
 
 
+def escape_docstring_text(text: str) -> str:
+    """Make free text safe inside a triple-double-quoted docstring.
+
+    Backslashes are doubled (so the docstring evaluates to the original text and a trailing backslash
+    cannot escape the closing quotes) and every triple quote is broken up.
+    """
+    return text.replace("\\", "\\\\").replace('"""', '\\"\\"\\"')
+
+
 class DocumentationBlock:
     """
     Data container for docstring content.
@@ -218,5 +227,7 @@ class DocumentationWriter:
             lines.append("")
             lines.append("Raises:")
             lines.extend(self.section_renderer.render_raises(doc.raises, indent + 4))
+        # Everything between the quotes may contain free text from the spec
+        lines[1:] = [escape_docstring_text(line) for line in lines[1:]]
         lines.append('"""')
         return "\n".join(lines)
